@@ -15,6 +15,7 @@ import z3
 
 from .core import *  # noqa: F401,F403
 from .vals import *  # noqa: F401,F403
+from .vals import SEQ
 
 _PARSE_CACHE: dict[str, ast.expr] = {}
 
@@ -167,7 +168,7 @@ class SpecMixin:
                 ident.append(a.ref)
             else:
                 raise ContractError(f"spec function {name}: unsupported argument {a!r}")
-        rs = z3.BoolSort() if sf.result == "bool" else z3.IntSort()
+        rs = z3.BoolSort() if sf.result == "bool" else (SEQ if sf.result == "seq" else z3.IntSort())
         uf = z3.Function("$".join(ident), *[t.sort() for t in targs], rs)
         app = uf(*targs) if targs else uf()
         key = (str(uf), tuple(str(z3.simplify(t)) for t in targs))
@@ -228,13 +229,15 @@ class SpecMixin:
                     ax = self.truth(self.eval(parse_expr(sf.axiom), self.frames[-1] if self.frames else None))
                 else:
                     body = self.eval(sf.expr, self.frames[-1] if self.frames else None)
-                    ax = app == (body.t if isinstance(body, (VInt, VBool)) else self.as_int(body))
+                    ax = app == (body.t if isinstance(body, (VInt, VBool, VSeqZ)) else self.as_int(body))
             finally:
                 self.spec_mode -= 1
                 self.unfold_depth -= 1
                 self.spec_bind = saved
             self.def_axioms.append(ax)
             self.assume(ax)
+        if sf.result == "seq":
+            return VSeqZ(app)
         return VBool(app) if sf.result == "bool" else VInt(app)
 
     unfold_depth = 0
@@ -273,6 +276,40 @@ class SpecMixin:
         name = node.args[0].value
         args = [self.eval(a, fr) for a in node.args[1:]]
         return self.apply_strfun(name, [a for a in args if isinstance(a, (VInt, VBool))])
+
+    def spec_altlen(self, node, fr):
+        from .ev_stmt import ALT_LEN
+
+        self.alt_axioms()
+        return VInt(ALT_LEN(self.atom_term(self.eval(node.args[0], fr))))
+
+    def spec_altelem(self, node, fr):
+        from .ev_stmt import ALT_ELEM
+
+        self.alt_axioms()
+        return VAtom(ALT_ELEM(self.atom_term(self.eval(node.args[0], fr)), self.as_int(self.eval(node.args[1], fr))))
+
+    def spec_cache_get(self, node, fr):
+        """cache_get(cache, c): what getRules(c) reads from a compiled table: the stored chain, [] when absent"""
+        cv = self.eval(node.args[0], fr)
+        c = self.atom_term(self.eval(node.args[1], fr))
+        if isinstance(cv, VOpt):
+            cv = cv.some
+        p = self.get_payload(cv.ref, self.use_old)
+        return VSeqZ(z3.If(z3.Select(p.keys, c), z3.Select(p.vals, c), z3.Empty(SEQ)))
+
+    def spec_forall_atoms(self, node, fr):
+        """forall_atoms(c, P): P for every chain name c (unbounded)"""
+        var, body = node.args
+        k = z3.Int("qa_" + var.id)
+        saved = self.spec_bind
+        self.spec_bind = dict(saved)
+        self.spec_bind[var.id] = VAtom(k)
+        try:
+            p = self.truth(self.eval(body, fr))
+        finally:
+            self.spec_bind = saved
+        return VBool(z3.ForAll([k], p))
 
     def spec_aslist(self, node, fr):
         """aslist(x): [x] for a single name, x itself for a list (the `str | Iterable[str]` parameters)"""
